@@ -1132,6 +1132,7 @@ const FRAGS: &[&[u8]] = &[
     b"a", b"\xc3\xa9", b"\xe4\xb8\xad", b"\xf0\x9f\x98\x80", b"\xef\xbb\xbf", b"\xc0", b"\x80", b"\xed\xa0\x80",
     b"\xf4\x90", b"\xff", b"\xe4\xb8", b"\xf0\x9f", b"\xf0\x9f\x98", b"\xc3", b"\xe0\x80", b"\xf4\x8f\xbf\xbf",
     b"\xed\x9f\xbf", b"\xee\x80\x80", b"\x1b[", b"1m", b"\xc2\x9b", b"\xe2\x82", b"\xf0\x90\x80\x80", b"\xf1",
+    b"\xfe", b"\xff\xfe", b"\xfe\xff",
 ];
 
 pub fn c11_subs(run: RunFn) -> Vec<Sub> {
@@ -1161,11 +1162,27 @@ pub fn c11_subs(run: RunFn) -> Vec<Sub> {
                     variants.push(vec![Op::FeedBytes(s[..cut].to_vec()), Op::FeedBytes(s[cut..].to_vec())]);
                 }
                 variants.push(s.iter().map(|b| Op::FeedBytes(vec![*b])).collect());
+                // every 3-way split (state that survives more than one chunk boundary), for
+                // strings short enough; with an ASCII chunk in front so that nothing is "first"
+                if s.len() <= 9 {
+                    for i in 0..=s.len() {
+                        for j in i..=s.len() {
+                            variants.push(vec![
+                                Op::FeedBytes(b"k".to_vec()),
+                                Op::FeedBytes(s[..i].to_vec()),
+                                Op::FeedBytes(s[i..j].to_vec()),
+                                Op::FeedBytes(s[j..].to_vec()),
+                                Op::FeedBytes(b"ok".to_vec()),
+                            ]);
+                        }
+                    }
+                }
                 for mut v in variants {
                     if mode8 {
                         v.insert(0, Op::SelCharset("@".into()));
                         // switch back in the middle: the held tail must be dropped by `@` only
-                        v.insert(2, Op::SelCharset("G".into()));
+                        let at = 2.min(v.len());
+                        v.insert(at, Op::SelCharset("G".into()));
                     }
                     v.push(Op::FeedBytes(b"x".to_vec()));
                     let c = Case { cols: 1, lines: 1, ops: v };
@@ -1226,11 +1243,48 @@ pub fn c02_subs(run: RunFn) -> Vec<Sub> {
                     }
                     variants.push(v);
                 }
+                // every 3-way split of the UTF-8 byte form (bounded length)
+                let b = crate::gen::encode(s, false);
+                if b.len() <= 40 {
+                    for i in 1..b.len() {
+                        for j in i + 1..b.len() {
+                            variants.push(vec![
+                                Op::FeedBytes(b[..i].to_vec()),
+                                Op::FeedBytes(b[i..j].to_vec()),
+                                Op::FeedBytes(b[j..].to_vec()),
+                            ]);
+                        }
+                    }
+                }
                 for v in variants {
                     let c = Case { cols: 7, lines: 3, ops: v };
                     let res = r(&c);
                     if acc.absorb(&c, res).is_some() {
                         return;
+                    }
+                }
+            }
+            // truncated multi-byte sequences followed by ASCII, every 3-way split, after a first chunk
+            if i == 0 {
+                let heads: [&[u8]; 8] = [b"\xf0\x9f\x98", b"\xf0\x9f", b"\xe4\xb8", b"\xc3", b"\xf0", b"\xe2\x82\xac", b"\xf0\x9f\x98\x80", b"\xed\xa0"];
+                for h in heads {
+                    for tail in [&b"ok"[..], b"A\x98", b"\x1b[1mz", b"\x80y"] {
+                        let mut s = b"p".to_vec();
+                        s.extend_from_slice(h);
+                        s.extend_from_slice(tail);
+                        for a in 0..=s.len() {
+                            for b2 in a..=s.len() {
+                                let c = Case {
+                                    cols: 7,
+                                    lines: 2,
+                                    ops: vec![Op::FeedBytes(s[..a].to_vec()), Op::FeedBytes(s[a..b2].to_vec()), Op::FeedBytes(s[b2..].to_vec())],
+                                };
+                                let res = r(&c);
+                                if acc.absorb(&c, res).is_some() {
+                                    return;
+                                }
+                            }
+                        }
                     }
                 }
             }
